@@ -6,11 +6,11 @@ Theorems are about `Model/Registry.lean` (`collect`, `restrictedCollect` = `rest
 carries besides its name is opaque to the registry and is kept as is.  Iteration order of the collector *set* in
 `RestrictedRegistry.collect` is unspecified in Python, so the restricted result is characterised up to permutation.
 
-Findings confirmed on the real code, excluded by hypothesis and exhibited by counter-example theorems:
-* F5: `_restricted_metric` rebuilds the family as `Metric(name, documentation, type)` — the unit is lost.
-* F19: `RestrictedRegistry.collect` never looks up the name `target_info` in the name map, so a collector that claims
-  `target_info` (e.g. `Info('target', …)`) is not selected by `restricted_registry(['target_info'])` although the full
-  collection has a sample of that name.
+History: F5 (`_restricted_metric` dropped the unit, fixed by 47e3465) and F19 (`RestrictedRegistry.collect` never
+looked up the name `target_info`, so a collector claiming it — `Info('target', …)` — was not selected; fixed by d22a2a4)
+are repaired in /repo; the model follows, `restricted_is_filter` is exact including unit and `target_info`, and the two
+old witnesses are regression `example`s.  `ClaimsCover` remains: it is a real precondition (the registry can find a
+collector only through the names it claimed), not a defect.
 -/
 import PromVerif.Lemmas.RegistryCollect
 import PromVerif.Props.C06
@@ -56,10 +56,11 @@ example : (collect (run (init false none) [.register exA, .register exB, .regist
 
 /-! ### the restricted registry -/
 
-/-- **`_restricted_metric` is the filter of the statement, except that the unit is dropped** (F5). -/
+/-- **`_restricted_metric` is the filter of the statement**: kept samples, unchanged name, type, help and unit; a
+family left empty is omitted. -/
 theorem restricted_metric_spec (names : List Name) (f : Family) :
-    restrictedMetric names f = (restrictTo names f).map dropUnit := by
-  unfold restrictedMetric restrictTo dropUnit
+    restrictedMetric names f = restrictTo names f := by
+  unfold restrictedMetric restrictTo
   cases h : f.samples.filter (fun smp => decide (smp.name ∈ names)) with
   | nil => simp
   | cons a r => simp
@@ -77,25 +78,26 @@ private theorem ti_part (names : List Name) (ti : Option Labels) :
       · simp [tiFamily, truthy, h, restrictedMetric, targetInfoMetric]
       · simp [tiFamily, truthy, h, restrictedMetric, targetInfoMetric]
 
-/- Full statement (false, see F5 and F19):
-   Inv s → ClaimsCover s →
-     Perm (restrictedCollect names s).families ((collect s).families.filterMap (restrictTo names)) -/
-/-- **The restricted registry is the filter of the full collection, up to the unit**: for every name set, under the
-C06 invariant and when every sample a collector emits bears a name the collector claimed, the families yielded by
-`restricted_registry(names).collect()` are — as a multiset — the families of `collect()` restricted to the samples
-whose name is listed, with name, type, help and the kept samples unchanged and families left empty omitted; the
-unit is erased.  Missing: the unit (F5), and name sets containing `target_info` while a registered collector emits a
-sample of that name (F19). -/
-theorem restricted_is_filter_upto_unit_partial {s : State} (hi : Inv s) (hc : ClaimsCover s) (names : List Name)
-    (ht : TargetInfoNotEmitted names s) :
-    (restrictedCollect names s).families.Perm
-      (((collect s).families.filterMap (restrictTo names)).map dropUnit) := by
-  have hrm : (fun f => (restrictTo names f).map dropUnit) = restrictedMetric names := by
+/-- **The restricted registry is a pure filter**: for every name set, under the C06 invariant and when every sample a
+collector emits bears a name the collector claimed (`ClaimsCover` — a real precondition, see above), the families
+yielded by `restricted_registry(names).collect()` are — as a multiset — exactly the families of `collect()` restricted
+to the samples whose name is listed, with name, type, help, unit and the kept samples unchanged and families left
+empty omitted. -/
+theorem restricted_is_filter {s : State} (hi : Inv s) (hc : ClaimsCover s) (names : List Name) :
+    (restrictedCollect names s).families.Perm ((collect s).families.filterMap (restrictTo names)) := by
+  have hrm : restrictTo names = restrictedMetric names := by
     funext f; rw [restricted_metric_spec]
-  rw [List.map_filterMap, hrm]
+  rw [hrm]
   simp only [restrictedCollect, collect, List.filterMap_append, List.filterMap_flatMap]
   rw [ti_part]
   apply List.Perm.append_left
+  -- the `_EmptyCollector` (selected through `target_info` when target info is configured) yields nothing
+  rw [flatMap_filter_of_nil (fun o => decide (o ≠ Owner.empty))
+    (fun o => o.families.filterMap (restrictedMetric names)) (selectCollectors s.namesToCollectors names [])
+    (by
+      intro o _ ho
+      have : o = Owner.empty := by simpa using ho
+      subst this; rfl)]
   -- collectors that are not selected contribute nothing
   rw [flatMap_filter_of_nil
     (fun e => decide (Owner.coll e.1 ∈ selectCollectors s.namesToCollectors names []))
@@ -115,65 +117,37 @@ theorem restricted_is_filter_upto_unit_partial {s : State} (hi : Inv s) (hc : Cl
     intro smp hs
     simp only [decide_eq_true_eq]
     intro hin
-    have hcl := hc c ns hm f hf smp hs
-    by_cases hti : smp.name = tiName
-    · exact ht (hti ▸ hin) c ns hm f hf smp hs hti
-    · exact hsel (claimant_is_selected hi hm hin hti hcl)
+    exact hsel (claimant_is_selected hi hm hin (hc c ns hm f hf smp hs))
 
-/-- **…and exactly the filter when no family has a unit.** -/
-theorem restricted_is_filter_partial {s : State} (hi : Inv s) (hc : ClaimsCover s) (names : List Name)
-    (ht : TargetInfoNotEmitted names s) (hu : NoUnits s) :
-    (restrictedCollect names s).families.Perm ((collect s).families.filterMap (restrictTo names)) := by
-  have h := restricted_is_filter_upto_unit_partial hi hc names ht
-  have hid : ((collect s).families.filterMap (restrictTo names)).map dropUnit
-      = (collect s).families.filterMap (restrictTo names) := by
-    rw [List.map_congr_left, List.map_id]
-    intro g hg
-    obtain ⟨f, hf, hfg⟩ := List.mem_filterMap.1 hg
-    have hfu : f.unit = [] := by
-      simp only [collect, List.mem_append, List.mem_flatMap] at hf
-      rcases hf with hf | ⟨e, he, hf⟩
-      · unfold tiFamily at hf
-        split at hf
-        · simp at hf; subst hf; rfl
-        · simp at hf
-      · exact hu e.1 e.2 he f hf
-    unfold restrictTo at hfg
-    split at hfg
-    · cases hfg
-    · cases hfg
-      simp [dropUnit, hfu]
-  rw [hid] at h
-  exact h
-
-/-- the same over every registry reachable by a C06 history (whose registered collectors claim pairwise distinct
-names — F6) -/
-theorem restricted_is_filter_reachable_partial (ad : Bool) (ti : Option Labels) (ops : List Op)
-    (hw : WellDescribed ad ops) (names : List Name)
-    (hc : ClaimsCover (run (init ad ti) ops).1) (ht : TargetInfoNotEmitted names (run (init ad ti) ops).1) :
+/-- the same over every registry reachable by a C06 history -/
+theorem restricted_is_filter_reachable (ad : Bool) (ti : Option Labels) (ops : List Op) (names : List Name)
+    (hc : ClaimsCover (run (init ad ti) ops).1) :
     (restrictedCollect names (run (init ad ti) ops).1).families.Perm
-      (((collect (run (init ad ti) ops).1).families.filterMap (restrictTo names)).map dropUnit) :=
-  restricted_is_filter_upto_unit_partial (PromVerif.Props.C06.inv_run_partial ad ti ops hw) hc names ht
+      ((collect (run (init ad ti) ops).1).families.filterMap (restrictTo names)) :=
+  restricted_is_filter (PromVerif.Props.C06.inv_run ad ti ops) hc names
 
 /-- **`collect()` is invoked only on claimants**: every collector the restricted registry calls is registered and
-claims one of the listed names, and none is called twice. -/
+claims one of the listed names — or is the `_EmptyCollector` that stands for configured target info, reached only
+when `target_info` is listed — and none is called twice. -/
 theorem restricted_calls_only_claimants {s : State} (hi : Inv s) (names : List Name) :
     (∀ o, o ∈ (restrictedCollect names s).calls →
-      ∃ c ns n, o = Owner.coll c ∧ (c, ns) ∈ s.collectorToNames ∧ n ∈ names ∧ n ∈ claims s.autoDescribe c) ∧
+      (∃ c ns n, o = Owner.coll c ∧ (c, ns) ∈ s.collectorToNames ∧ n ∈ names ∧ n ∈ claims s.autoDescribe c) ∨
+      (o = Owner.empty ∧ tiName ∈ names ∧ truthy s.targetInfo = true)) ∧
     (restrictedCollect names s).calls.Nodup := by
   refine ⟨?_, selectCollectors_nodup _ _ _ List.nodup_nil⟩
   intro o ho
-  obtain ⟨c, ns, n, h1, h2, h3, _, h5⟩ := selected_is_claimant hi ho
-  refine ⟨c, ns, n, h1, h2, h3, ?_⟩
-  rw [← getNames_eq_claims, ← hi.stored c ns h2]
-  exact h5
+  rcases selected_is_claimant hi ho with ⟨c, ns, n, h1, h2, h3, h5⟩ | h
+  · refine Or.inl ⟨c, ns, n, h1, h2, h3, ?_⟩
+    rw [← mem_getNames_iff, ← hi.stored c ns h2]
+    exact h5
+  · exact Or.inr h
 
-/-! ### non-vacuity and the excluded cases -/
+/-! ### non-vacuity and regressions -/
 
 private def exS : State := (run (init false none) [.register exA, .register exB]).1
 
 -- the hypotheses of the filter theorems hold of a registry with two collectors, and the restriction is non-trivial
-example : Inv exS ∧ ClaimsCover exS ∧ TargetInfoNotEmitted [['y'], ['z']] exS ∧ NoUnits exS ∧
+example : Inv exS ∧ ClaimsCover exS ∧
     (restrictedCollect [['y'], ['z']] exS).families = exB.families ∧
     (restrictedCollect [['y'], ['z']] exS).calls = [Owner.coll exB] := by
   have hA : ∀ c ns, (c, ns) ∈ exS.collectorToNames → (c = exA ∧ ns = [['x']]) ∨ (c = exB ∧ ns = [['y']]) := by
@@ -181,46 +155,40 @@ example : Inv exS ∧ ClaimsCover exS ∧ TargetInfoNotEmitted [['y'], ['z']] ex
     have : exS.collectorToNames = [(exA, [['x']]), (exB, [['y']])] := by decide
     rw [this] at h
     simpa using h
-  refine ⟨?_, ?_, ?_, ?_, by decide, by decide⟩
+  refine ⟨?_, ?_, by decide, by decide⟩
   · exact PromVerif.Model.Registry.inv_register (PromVerif.Model.Registry.inv_register
       (PromVerif.Model.Registry.inv_setTargetInfo (inv_base false) none) exA) exB
   · intro c ns h f hf smp hs
     rcases hA c ns h with ⟨rfl, rfl⟩ | ⟨rfl, rfl⟩
     · simp [exA] at hf; subst hf; simp at hs; subst hs; simp
     · simp [exB] at hf; subst hf; simp at hs; subst hs; simp
-  · intro hin; simp [tiName] at hin
-  · intro c ns h f hf
-    rcases hA c ns h with ⟨rfl, rfl⟩ | ⟨rfl, rfl⟩
-    · simp [exA] at hf; subst hf; rfl
-    · simp [exB] at hf; subst hf; rfl
 
 /-- a gauge family `g_sec` with unit `sec` -/
-def f5Collector : Collector :=
+private def f5Collector : Collector :=
   ⟨0, some [(['g', '_', 's', 'e', 'c'], .gauge)],
     [⟨['g', '_', 's', 'e', 'c'], .gauge, ['d'], ['s', 'e', 'c'], [⟨['g', '_', 's', 'e', 'c'], .idx 0⟩]⟩]⟩
 
-/-- **Counter-example (finding F5).**  Restricting to the family's only sample name should return the family
-unchanged; the restricted registry returns it with an empty unit. -/
-theorem restricted_drops_unit_counterexample :
-    (collect (register (init false none) f5Collector).1).families.filterMap (restrictTo [['g', '_', 's', 'e', 'c']])
-      = f5Collector.families ∧
+-- regression (former F5): restricting to the family's only sample name returns the family unchanged, unit included
+example :
     (restrictedCollect [['g', '_', 's', 'e', 'c']] (register (init false none) f5Collector).1).families
-      = f5Collector.families.map dropUnit ∧
-    f5Collector.families.map dropUnit ≠ f5Collector.families := by decide
+      = f5Collector.families := by decide
 
 /-- what `Info('target', 'h').info({...})` registers: family `target` of type info with a sample `target_info` -/
-def f19Collector : Collector :=
+private def f19Collector : Collector :=
   ⟨0, some [(['t', 'a', 'r', 'g', 'e', 't'], .info)],
     [⟨['t', 'a', 'r', 'g', 'e', 't'], .info, ['h'], [], [⟨tiName, .idx 0⟩]⟩]⟩
 
-/-- **Counter-example (finding F19).**  The collector claims `target` and `target_info` and emits a sample named
-`target_info`; the full collection restricted to `{target_info}` keeps that family, the restricted registry yields
-nothing (it never selects a collector through the name `target_info`) and calls no collector. -/
-theorem restricted_target_info_counterexample :
+-- regression (former F19): the collector claiming `target_info` is selected through that name
+example :
     (register (init false none) f19Collector).2 = none ∧
-    (collect (register (init false none) f19Collector).1).families.filterMap (restrictTo [tiName])
-      = f19Collector.families ∧
-    (restrictedCollect [tiName] (register (init false none) f19Collector).1).families = [] ∧
-    (restrictedCollect [tiName] (register (init false none) f19Collector).1).calls = [] := by decide
+    (restrictedCollect [tiName] (register (init false none) f19Collector).1).families = f19Collector.families ∧
+    (restrictedCollect [tiName] (register (init false none) f19Collector).1).calls = [Owner.coll f19Collector] := by
+  decide
+
+-- with target info configured, `target_info` selects the `_EmptyCollector` (which yields nothing) and the
+-- target-info family is returned once
+example :
+    (restrictedCollect [tiName] (init false (some [(['a'], ['b'])]))).families = [targetInfoMetric [(['a'], ['b'])]] ∧
+    (restrictedCollect [tiName] (init false (some [(['a'], ['b'])]))).calls = [Owner.empty] := by decide
 
 end PromVerif.Props.C07
